@@ -165,7 +165,9 @@ class SimultaneousEating:
     bistochastic = self.bistochastic(profile, speeds)
     decomposition = birkhoff_von_neumann(bistochastic)
     permutation_probabilities = [p for p, _ in decomposition]
-    chosen_permutation = decomposition[np.random.choice(1, len(permutation_probabilities), p=np.array(permutation_probabilities))][1]
+    # Draw the index of one permutation matrix, with its coefficient as probability.
+    probabilities = np.array(permutation_probabilities) / np.sum(permutation_probabilities)
+    chosen_permutation = decomposition[np.random.choice(len(permutation_probabilities), p=probabilities)][1]
     return np.argmax(chosen_permutation, axis=1) + self.index_fixer
 
 class ProbabilisticSerial:
